@@ -34,14 +34,15 @@ Lossless(input, toks) == LosslessFails(input, toks) = ""
 
 (* ---- options (C15) ---- *)
 \* o is a set of option names
-IsQuoteTok(kind, b) == b[1] = TQuoted \/ (kind = "expression" /\ b[1] = TWord /\ b[2] # <<>> /\ b[2][1] = 34)
-QState(kind) == IF kind \in {"expression"} THEN "expression" ELSE IF kind \in {"csv", "csv-wide"} THEN "csv" ELSE "generic"
+IsQuoteTok(kind, b) == b[1] = TQuoted \/ (kind \in {"expression", "expression-custom"} /\ b[1] = TWord /\ b[2] # <<>> /\ b[2][1] = 34)
+QState(kind) == IF kind \in {"expression", "expression-custom"} THEN "expression" ELSE IF kind \in {"csv", "csv-wide"} THEN "csv" ELSE "generic"
 MustDrop(o, b) == \/ b[1] = TUnknown /\ "skipUnknown" \in o
                   \/ b[1] = TComment /\ "skipComments" \in o
                   \/ b[1] = TEof /\ "skipEof" \in o
 MayDrop(o, b) == MustDrop(o, b) \/ (b[1] = TWhitespace /\ "skipWhitespaces" \in o)
 \* <<type, value>> of a kept token after the enabled rewrites
 Rewrite(o, kind, b) ==
+  \* (decoding is done by the tokenizer's own quote state, also for a token that a second quote state of another kind has read)
   LET v1 == IF "decodeStrings" \in o /\ IsQuoteTok(kind, b) THEN Decode(QState(kind), b[2], b[2][1]) ELSE b[2]
       v2 == IF b[1] = TWhitespace /\ "mergeWhitespaces" \in o THEN <<32>> ELSE v1
       t2 == IF "unifyNumbers" \in o /\ b[1] \in {TInteger, TFloat, THex} THEN TNumber ELSE b[1]
